@@ -100,6 +100,13 @@ class World:
         self.sid_map[(side, sid)] = uid
         self.sid_queue.setdefault((side, sid), []).append([uid, self.cur_cx, False])
 
+    def unbind(self, side, sid, uid):
+        """The interaction will never send its request (a publisher dropped without being subscribed to): it must not be taken
+        for a later request that re-uses the id."""
+        for ent in self.sid_queue.get((side, sid)) or []:
+            if ent[0] == uid and not ent[2]:
+                ent[2] = True
+
     def take(self, side, sid, cx):
         """The interaction a request received on (requester side, sid) over connection cx belongs to: ids are reused
         after wrap-around and after reconnects and frames may be delivered late, so it is the first not yet consumed
